@@ -110,6 +110,13 @@ def Same (w w' : World) : Prop := w'.ctl = w.ctl ∧ w'.tid = w.tid
   induction l generalizing s with
   | nil => rfl
   | cons t l ih => simp only [List.foldl_cons, ih, activeId_unpark]
+@[simp] theorem activeId_wake (s : Threads) (t : Nat) : (s.wake t).activeId = s.activeId := by
+  unfold Threads.wake; split <;> rfl
+@[simp] theorem activeId_foldl_wake (l : List Nat) (s : Threads) :
+    (l.foldl (fun ths t => ths.wake t) s).activeId = s.activeId := by
+  induction l generalizing s with
+  | nil => rfl
+  | cons t l ih => simp only [List.foldl_cons, ih, activeId_wake]
 
 theorem activeId_atomic_fenceAcq (a : Atomic) (ths : Threads) :
     (a.fenceAcq ths).activeId = ths.activeId := by
@@ -278,13 +285,18 @@ theorem Exec.newThread_act {e : Exec} {r : Exec × Nat} (h : e.newThread = .ok r
 
 /-! ### the scheduling points keep the control table -/
 
-theorem branch_ctl {w w' : World} {o : Nat} {a : Action} {b : Bool} (h : w.branch o a b = .ok w') :
+theorem branch_ctl {w w' : World} {o : Nat} {a : Action} {b wt : Bool}
+    (h : w.branch o a b wt = .ok w') :
     w'.ctl = w.ctl := (C20.branch_cf h).1
 theorem yieldNow_ctl {w w' : World} (h : w.yieldNow = .ok w') : w'.ctl = w.ctl := (C20.yieldNow_cf h).1
 theorem notifyWait1_ctl {w : World} {o : Nat} {r : World × Nat} (h : w.notifyWait1 o = .ok r) :
     r.1.ctl = w.ctl := (C20.notifyWait1_cf h).1
 theorem parkNow_ctl {w w' : World} (h : w.parkNow = .ok w') : w'.ctl = w.ctl := by
   unfold World.parkNow at h
+  mt_split h
+  all_goals first | (cases h; done) | (cases h; rfl)
+theorem blockNow_ctl {w w' : World} (h : w.blockNow = .ok w') : w'.ctl = w.ctl := by
+  unfold World.blockNow at h
   mt_split h
   all_goals first | (cases h; done) | (cases h; rfl)
 theorem threadDone_ctl {w w' : World} (h : w.threadDone = .ok w') : w'.ctl = w.ctl := by
@@ -297,10 +309,11 @@ macro "fs_sat2" : tactic => `(tactic|
    try (have := wakerDrop_same ‹World.wakerDrop _ _ = Except.ok _›)
    try (have := lazyInitFinish_same ‹World.lazyInitFinish _ _ _ = Except.ok _›)
    try (have := Exec.newThread_act ‹Exec.newThread _ = Except.ok _›)
-   try (have := branch_ctl ‹World.branch _ _ _ _ = Except.ok _›)
+   try (have := branch_ctl ‹World.branch _ _ _ _ _ = Except.ok _›)
    try (have := yieldNow_ctl ‹World.yieldNow _ = Except.ok _›)
    try (have := notifyWait1_ctl ‹World.notifyWait1 _ _ = Except.ok _›)
    try (have := parkNow_ctl ‹World.parkNow _ = Except.ok _›)
+   try (have := blockNow_ctl ‹World.blockNow _ = Except.ok _›)
    try (have := threadDone_ctl ‹World.threadDone _ = Except.ok _›)))
 
 /-- close a goal about the footprint of a stage of the thread `w.tid` from the facts collected about the
